@@ -22,7 +22,7 @@ Theorem C10_int : forall name w, In (name, w) shorthand_table -> forall (l : lin
   data_passes [(l, IShort name (FInt v))] =
     if (- 2 ^ (8 * w - 1) <=? v) && (v <? 2 ^ (8 * w))
     then Passes.Done [(l, Passes.CBytes (le_of (Z.to_nat w) (v mod 2 ^ (8 * w))))]
-    else Passes.Fail (PRaw StructError).
+    else Passes.Fail (PAsm l).
 Proof. exact shorthand_passes. Qed.
 Print Assumptions C10_int.
 
@@ -34,7 +34,7 @@ Theorem C10_seq : forall name w, In (name, w) seq_table -> forall (l : line) (to
   data_passes [(l, ISeq name toks)] =
     if forallb (fun v => (- 2 ^ (8 * w - 1) <=? v) && (v <? 2 ^ (8 * w))) vs
     then Passes.Done [(l, Passes.CBytes (flat_map (fun v => le_of (Z.to_nat w) (v mod 2 ^ (8 * w))) vs))]
-    else Passes.Fail (PRaw StructError).
+    else Passes.Fail (PAsm l).
 Proof. exact seq_passes. Qed.
 Print Assumptions C10_seq.
 
@@ -53,7 +53,7 @@ Theorem C10_pack : forall o little c w signed, In (o, little) order_table -> In 
     if (if signed then (- 2 ^ (8 * w - 1) <=? v) && (v <? 2 ^ (8 * w - 1)) else (0 <=? v) && (v <? 2 ^ (8 * w)))
     then Passes.Done [(l, Passes.CBytes (if little then le_of (Z.to_nat w) (v mod 2 ^ (8 * w))
                                          else be_of (Z.to_nat w) (v mod 2 ^ (8 * w))))]
-    else Passes.Fail (PRaw StructError).
+    else Passes.Fail (PAsm l).
 Proof. exact pack_passes. Qed.
 Print Assumptions C10_pack.
 
